@@ -33,7 +33,7 @@ func c03Corpus(env run.Env) corpus {
 	if env.Thorough {
 		return newCorpus("C03", wfDomain, 120, 1500000)
 	}
-	return newCorpus("C03", wfDomain, 4, 16000)
+	return newCorpus("C03", wfDomain, 16, 16000)
 }
 
 func (c03) Phases(env run.Env) []run.Phase {
